@@ -3,6 +3,7 @@
 package c11
 
 import (
+	"bytes"
 	"encoding/base64"
 	"encoding/json"
 	"fmt"
@@ -13,6 +14,7 @@ import (
 	"testing"
 
 	"github.com/z7zmey/php-parser/pkg/ast"
+	"github.com/z7zmey/php-parser/pkg/errors"
 	"pgregory.net/rapid"
 
 	"verif/astx"
@@ -114,11 +116,24 @@ func drawTwinJob(rt *rapid.T) job {
 	return job{src: b, ver: v, pipe: rapid.IntRange(0, 31).Draw(rt, "pipeline"), nocb: rapid.IntRange(0, 3).Draw(rt, "handler") == 0}
 }
 
-func drawJob(rt *rapid.T) job {
+func drawJob(rt *rapid.T) job { return drawJobOf(rt, -1) }
+
+// drawJobOf draws a job whose source is of the given kind (-1: drawn).
+func drawJobOf(rt *rapid.T, kind int) job {
 	v := rapid.SampledFrom(px.AllVersions).Draw(rt, "version")
 	var src []byte
 	pipeMask := 0
-	switch rapid.IntRange(0, 4).Draw(rt, "srckind") {
+	if kind < 0 {
+		kind = rapid.IntRange(0, 5).Draw(rt, "srckind")
+	}
+	switch kind {
+	case 5:
+		// the PHP 5 grammar's own reports (by-reference foreach key, trait with extends / implements), behind a
+		// drawn number of lines so that two such jobs report different positions; mostly under a 5.x version
+		src = append(bytes.Repeat([]byte("\n"), rapid.IntRange(0, 40).Draw(rt, "lines")), inputs.SemanticErrorProgram(rt)...)
+		if rapid.IntRange(0, 3).Draw(rt, "php5") != 0 {
+			v = rapid.SampledFrom([]px.Ver{px.V56, {Major: 5, Minor: 3}, {Major: 5, Minor: 0}}).Draw(rt, "version5")
+		}
 	case 0:
 		src, _ = inputs.Any(rt)
 	case 4:
@@ -251,22 +266,31 @@ func TestParseHistory(t *testing.T) {
 	harness.Check(t, "parse-history", 600, 30000, func(rt *rapid.T) {
 		n := rapid.IntRange(2, 5).Draw(rt, "jobs")
 		jobs := make([]job, n)
-		twins := rapid.IntRange(0, 2).Draw(rt, "twins") == 0
+		family := rapid.IntRange(0, 5).Draw(rt, "twins")
+		twins := family <= 1
 		for i := range jobs {
-			if twins {
+			switch {
+			case twins:
 				jobs[i] = drawTwinJob(rt)
-			} else {
+			case family == 2:
+				jobs[i] = drawJobOf(rt, 5) // every job makes the PHP 5 grammar report its own errors, at different positions
+			default:
 				jobs[i] = drawJob(rt)
 			}
 			jobs[i].pipe = 0
+		}
+		if family == 2 {
+			harness.Class("parse-history:grammar-reported-errors")
 		}
 		if twins {
 			harness.Class("parse-history:twin-inputs")
 		}
 		type kept struct {
-			res  string
-			root ast.Vertex
-			fp   string
+			res    string
+			root   ast.Vertex
+			fp     string
+			errs   []*errors.Error // the error objects the handler received, and how they read at that time
+			errStr string
 		}
 		first := map[int]*kept{}
 		steps := rapid.IntRange(3, 14).Draw(rt, "steps")
@@ -298,7 +322,7 @@ func TestParseHistory(t *testing.T) {
 					harness.Fail(rt, "history-dependent", j.src, mt, "after history%s, job %d (version %s) parses differently than the first time it was parsed in this history: %s\nsource: %q", hist, i, j.ver, firstDiff(k.res, res), j.src)
 				}
 			} else {
-				k := &kept{res: res, root: r.Root}
+				k := &kept{res: res, root: r.Root, errs: r.Errs, errStr: px.ErrString(r.Errs)}
 				if !astx.IsNil(r.Root) {
 					k.fp = astx.Fingerprint(r.Root)
 				}
@@ -310,6 +334,13 @@ func TestParseHistory(t *testing.T) {
 			if k := first[q]; k != nil && !astx.IsNil(k.root) && astx.Fingerprint(k.root) != k.fp {
 				mt := map[string]string{"version": jobs[q].ver.String(), "history": hist, "jobs": jobsJSON(jobs)}
 				harness.Fail(rt, "kept-tree-changed", jobs[q].src, mt, "after history%s the tree kept from the first parse of job %d has changed: %s", hist, q, firstDiff(k.fp, astx.Fingerprint(k.root)))
+			}
+		}
+		// so are the error objects the handler was given
+		for q := 0; q < n; q++ {
+			if k := first[q]; k != nil && px.ErrString(k.errs) != k.errStr {
+				mt := map[string]string{"version": jobs[q].ver.String(), "history": hist, "jobs": jobsJSON(jobs)}
+				harness.Fail(rt, "kept-errors-changed", jobs[q].src, mt, "after history%s the errors delivered by the first parse of job %d read differently: %s", hist, q, firstDiff(k.errStr, px.ErrString(k.errs)))
 			}
 		}
 		if strings.Contains(hist, "gc") && len(first) >= 2 {
